@@ -249,6 +249,21 @@ type Runner struct {
 	// Wait is called for "wait" steps and after steps that request quiescence.
 	Wait func()
 
+	// vmu protects Versions, Durable and Pending: crash images are taken from
+	// file-system callbacks on arbitrary goroutines.
+	vmu sync.Mutex
+	// Durable is the index of the newest version that is guaranteed to survive a
+	// crash (every acknowledged-durable operation is <= it).
+	Durable int
+	// Pending is the version the in-flight mutating operation will produce.
+	Pending *State
+	// FMVDurable / FMVPending: format major version that a crash must at least
+	// recover, and the target of an in-flight ratchet (0 = none).
+	FMVDurable, FMVPending int
+
+	crash *crasher
+	ckptN int
+
 	// counters for evidence / non-triviality
 	C map[string]int
 	L map[string]bool
@@ -339,7 +354,53 @@ func NewRunner(p *Plan, fs vfs.FS) *Runner {
 
 func (r *Runner) Latest() *State { return r.Versions[len(r.Versions)-1] }
 
-func (r *Runner) push(s *State) { r.Versions = append(r.Versions, s) }
+// begin announces the version the operation about to run will produce.
+func (r *Runner) begin(next *State) {
+	r.vmu.Lock()
+	r.Pending = next
+	r.vmu.Unlock()
+}
+
+// abort withdraws the announcement (the operation failed).
+func (r *Runner) abort() {
+	r.vmu.Lock()
+	r.Pending = nil
+	r.vmu.Unlock()
+}
+
+// push records the pending (or given) version as committed. durable says that
+// the operation's return guarantees durability of itself and all earlier ones.
+func (r *Runner) push(s *State, durable bool) {
+	r.vmu.Lock()
+	r.Versions = append(r.Versions, s)
+	r.Pending = nil
+	if durable {
+		r.Durable = len(r.Versions) - 1
+	}
+	r.vmu.Unlock()
+}
+
+// markDurable records that everything committed so far is durable.
+func (r *Runner) markDurable() {
+	r.vmu.Lock()
+	r.Durable = len(r.Versions) - 1
+	r.vmu.Unlock()
+}
+
+// Candidates returns the versions a crash right now may recover: every version
+// from Durable to the latest, plus the pending one.
+func (r *Runner) Candidates() (lo int, vs []*State) {
+	r.vmu.Lock()
+	defer r.vmu.Unlock()
+	vs = append(vs, r.Versions[r.Durable:]...)
+	if r.Pending != nil {
+		vs = append(vs, r.Pending)
+	}
+	return r.Durable, vs
+}
+
+// walOn reports whether commits are logged.
+func (r *Runner) walOn() bool { return !r.Plan.Opt.DisableWAL }
 
 func (r *Runner) Open() error {
 	r.Opts = BuildOptions(r.Plan.Opt, r.FS, r.Ev.Listener(), r.Log)
@@ -348,6 +409,11 @@ func (r *Runner) Open() error {
 		return errors.Wrap(err, "open")
 	}
 	r.DB = db
+	r.vmu.Lock()
+	if fm := int(db.FormatMajorVersion()); fm > r.FMVDurable {
+		r.FMVDurable = fm
+	}
+	r.vmu.Unlock()
 	return nil
 }
 
@@ -516,11 +582,11 @@ func applyOp(w writer, o Op, opt *pebble.WriteOptions) error {
 }
 
 // commit records ops as committed in the model.
-func (r *Runner) commit(ops []Op) {
+func (r *Runner) commit(ops []Op, next *State, durable bool) {
 	for _, o := range ops {
 		r.sdNote(o)
 	}
-	r.push(r.Latest().Apply(ops))
+	r.push(next, durable)
 }
 
 // ---------------------------------------------------------------- reads
@@ -1108,6 +1174,9 @@ func (r *Runner) step(s Step) error {
 			return nil
 		}
 		ops := r.normalize(s.Ops)
+		next := r.Latest().Apply(ops)
+		r.begin(next)
+		defer r.abort()
 		// ApplyNoSyncWait requires WriteOptions.Sync (documented).
 		nsw := s.NoSyncWait && s.Sync && !r.Plan.Opt.DisableWAL
 		if len(ops) == 1 && !nsw {
@@ -1135,7 +1204,7 @@ func (r *Runner) step(s Step) error {
 				return fmt.Errorf("batch Close: %v", err)
 			}
 		}
-		r.commit(ops)
+		r.commit(ops, next, s.Sync && r.walOn())
 		r.C["writes"]++
 		for _, o := range ops {
 			r.L["op="+o.K] = true
@@ -1147,6 +1216,7 @@ func (r *Runner) step(s Step) error {
 		if err := r.DB.Flush(); err != nil {
 			return fmt.Errorf("unexpected error: %v", err)
 		}
+		r.markDurable()
 	case "compact":
 		a, b := s.A, s.B
 		if a == "" || b == "" || cmpKey(a, b) >= 0 {
@@ -1169,6 +1239,7 @@ func (r *Runner) step(s Step) error {
 		if err := r.Close(); err != nil {
 			return err
 		}
+		r.markDurable()
 		if err := r.Open(); err != nil {
 			return err
 		}
@@ -1179,12 +1250,15 @@ func (r *Runner) step(s Step) error {
 		if r.fmv() < pebble.FormatVirtualSSTables || s.A == "" || cmpKey(s.A, s.B) >= 0 {
 			return nil
 		}
+		n := r.Latest().clone()
+		n.exciseSpan(s.A, s.B)
+		r.begin(n)
+		defer r.abort()
+		wasDurable := r.Durable == len(r.Versions)-1
 		if err := r.DB.Excise(ctx, pebble.KeyRange{Start: []byte(s.A), End: []byte(s.B)}); err != nil {
 			return fmt.Errorf("unexpected error: %v", err)
 		}
-		n := r.Latest().clone()
-		n.exciseSpan(s.A, s.B)
-		r.push(n)
+		r.push(n, wasDurable)
 		r.sdNote(Op{K: "delrange", A: s.A, B: s.B})
 		r.noteExcise(s.A, s.B)
 		r.L["excise"] = true
@@ -1361,13 +1435,16 @@ func (r *Runner) step(s Step) error {
 			}
 		}
 		delete(r.batches, s.ID)
+		next := r.Latest().Apply(b.ops)
+		r.begin(next)
+		defer r.abort()
 		if err := b.b.Commit(r.wo(s.Sync)); err != nil {
 			return fmt.Errorf("Commit: unexpected error: %v", err)
 		}
 		if err := b.b.Close(); err != nil {
 			return fmt.Errorf("batch Close: %v", err)
 		}
-		r.commit(b.ops)
+		r.commit(b.ops, next, s.Sync && r.walOn())
 		r.L["ibcommit"] = true
 	case "ibclose":
 		b := r.batches[s.ID]
@@ -1535,6 +1612,14 @@ func (r *Runner) stepIngest(ctx context.Context, s Step) error {
 	r.Ev.mu.Lock()
 	fi0 := r.Ev.FlushableIng
 	r.Ev.mu.Unlock()
+	exA, exB := "", ""
+	if excise {
+		exA, exB = s.A, s.B
+	}
+	next := r.Latest().ApplyIngest(tables, exA, exB)
+	r.begin(next)
+	defer r.abort()
+	wasDurable := r.Durable == len(r.Versions)-1
 	var err error
 	if excise {
 		_, err = r.DB.IngestAndExcise(ctx, paths, nil, nil, pebble.KeyRange{Start: []byte(s.A), End: []byte(s.B)})
@@ -1544,14 +1629,15 @@ func (r *Runner) stepIngest(ctx context.Context, s Step) error {
 	if err != nil {
 		return fmt.Errorf("unexpected error: %v", err)
 	}
-	exA, exB := "", ""
 	if excise {
-		exA, exB = s.A, s.B
 		r.sdNote(Op{K: "delrange", A: s.A, B: s.B})
 		r.noteExcise(s.A, s.B)
 		r.L["ingest-excise"] = true
 	}
-	r.push(r.Latest().ApplyIngest(tables, exA, exB))
+	// A successful ingestion is durable; earlier unsynced WAL writes are not
+	// made durable by it, so the durable point only advances when nothing was
+	// pending durability.
+	r.push(next, wasDurable)
 	for _, t := range tables {
 		for _, o := range t {
 			// rangedels first (they do not cover same-ingest points), then points
